@@ -93,7 +93,7 @@ class C19(object):
     rule = ("one run = (ystep, y0 within +-10 steps, sinogram height 15..64 odd/even, 0-180 or 0-360 scan with 20..90 "
             "angles, point grain inside the scanned disc, ROI mask, second sinogram and scalar for linearity, workers "
             "1..16 incl. more workers than angles, strategy, interleaving of the pool threads); distinct = distinct "
-            "(geometry digest, workers, schedule signature); non-trivial = workers >= 2; also: numpy in-place operations on shared arrays split at pre-emption points, sinograms and ROI masks in other memory layouts, empty projections, cubic/nearest interpolation, GrainSinogram parameter histories and a second object, PBPRefine.setmask on a stand-in dataset, non-square shapes in the conversions, iradon with shifts that differ per projection")
+            "(geometry digest, workers, schedule signature); non-trivial = workers >= 2; also: numpy in-place operations on shared arrays split at pre-emption points, sinograms and ROI masks in other memory layouts, empty projections, cubic/nearest interpolation, GrainSinogram parameter histories and a second object, PBPRefine.setmask on a stand-in dataset, non-square shapes in the conversions, iradon with shifts that differ per projection, the angle array shifted in place between two in-beam queries")
     components = {"real": ["ImageD11.sinograms.roi_iradon.run_iradon / iradon / _get_fourier_filter (unchanged Python)",
                            "ImageD11.sinograms.geometry (all conversion functions, sino_shift_and_pad, dty_values_grain_in_beam, "
                            "dty_to_dtyi, step_grid_from_ybincens)", "ImageD11.sinograms.sinogram.GrainSinogram (update_recon_parameters, recon)",
